@@ -790,9 +790,28 @@ def native_method(it, obj, name, args, kw):
             return SymSeq(obj.name + "'", obj.n, obj.maker, obj.kind)
         if name == "__len__":
             return wrap(obj.n)
-        if name in ("append", "add"):
-            # functional update is not possible in place; out of subset unless contract handles it
-            raise OutOfSubset("mutation of a symbolic sequence")
+        if name == "append":
+            # in-place append of a scalar / opaque element: element i of the new sequence is `x` at the old length, the old element elsewhere
+            x = args[0]
+            old_n, old_maker = obj.n, obj.maker
+            probe = old_maker(z3.IntVal(0))
+            if isinstance(probe, VObj) or (isinstance(x, VObj) and not (isinstance(probe, Opaque) and probe.sort == "ObjRef")):
+                raise OutOfSubset("append of a structured object to a symbolic sequence (declare the elements as Opq('ObjRef') to track identities only)")
+            zx = z3_of(x)
+            if z3_of(probe).sort() != zx.sort():
+                raise OutOfSubset("append of an element of a different sort to a symbolic sequence")
+
+            def maker(i, _n=old_n, _m=old_maker, _zx=zx, _probe=probe):
+                v = wrap(z3.If(i == _n, _zx, z3_of(_m(i))))
+                if isinstance(v, Opaque) and isinstance(_probe, Opaque):
+                    v = Opaque(_probe.sort, v.z, _probe.cls)
+                return v
+
+            obj.n = old_n + 1
+            obj.maker = maker
+            return None
+        if name == "add":
+            raise OutOfSubset("mutation of a symbolic set")
     if isinstance(obj, VGen) and name == "close":
         return None
     from .interp import NativeType
